@@ -16,9 +16,9 @@ go build ./... || { echo "BUILD FAILS"; exit 1; }
 SUITE=$(go test -vet=off -count=1 -skip 'TestSeededDemo' ./... 2>&1 | grep -cE '^(FAIL|---\s*FAIL)')
 echo "suite failures with change: $SUITE"
 WITH=$(timeout 900 go test $RACE -vet=off -count=1 -run 'TestSeededDemo' "$PKG" 2>&1 | tail -3 | grep -cE '^(FAIL|panic)|FAIL')
-git stash -q
+git apply -R /tmp/seed_$SID.diff
 WITHOUT=$(timeout 900 go test $RACE -vet=off -count=1 -run 'TestSeededDemo' "$PKG" 2>&1 | tail -3 | grep -cE '^ok')
-git stash pop -q
+git apply /tmp/seed_$SID.diff
 echo "demo fails with change: $WITH ; demo passes without: $WITHOUT"
 if [ "$SUITE" != "0" ] || [ "$WITH" = "0" ] || [ "$WITHOUT" = "0" ]; then echo "NOT CONFIRMED"; exit 1; fi
 D=/verif/seeded/$SID; mkdir -p "$D"
@@ -33,7 +33,7 @@ d,sid,prop,demo,pkg,caught=sys.argv[1:7]
 notes=open(d+'/NOTES.md').read() if __import__('os').path.exists(d+'/NOTES.md') else ''
 json.dump({"id":sid,"breaks_property":prop,"demo":demo+" (stored with a .txt suffix)","demo_package":pkg,
  "needs_to_manifest":"see NOTES.md","confirmed":{"suite_passes_with_change":True,"demo_fails_with_change":True,"demo_passes_without_change":True},
- "what_i_ran":["go build ./...","go test -vet=off -count=1 -skip TestSeededDemo ./...  (0 failures)","go test -run TestSeededDemo "+pkg+"  (fails with the change)","git stash; go test -run TestSeededDemo "+pkg+"  (passes); git stash pop","olacheck -prop all -repo <worktree>"],
+ "what_i_ran":["go build ./...","go test -vet=off -count=1 -skip TestSeededDemo ./...  (0 failures)","go test -run TestSeededDemo "+pkg+"  (fails with the change)","git apply -R patch.diff; go test -run TestSeededDemo "+pkg+"  (passes); git apply patch.diff","olacheck -prop all -repo <worktree>"],
  "caught_by":caught.split()},open(d+'/meta.json','w'),indent=1)
 PY
 echo CONFIRMED
